@@ -27,6 +27,11 @@ CHECKS = {
          "Held on every explored (program, graph, backend): leading filter runs x data-consuming suffixes x 3 starts, all suffix pairs, 5 spelling families, 2000 / 100000 random programs, 2 graphs each; production == literal as multisets, count() == number of rows, all spellings of a label/id filter identical. No model is involved in the verdict (engine vs engine). Bounded by the program space listed in the evidence rule.",
          "Trusted: the two harness decorators (harness/deco/graph.go, 100 lines) that force or honour the load hint; compiler, optimizer, inspect analysis, processors and Convert are the real code.",
          "5/C02"),
+ "C06": ("exploration",
+         "crash/hang monitor over hostile requests: the real compiler, pipeline and gRPC handlers run in child worker processes; the Go runtime's own panic / fatal-error report is the sanitizer, keyed by panic site; a canary request after every case checks that the server keeps serving; hangs go through a goroutine-dump deadlock certificate, unbounded streams through a row-count divergence certificate",
+         "Held on every generated request: ~26000 (quick) structure-aware requests in 15 families enumerated over small structural spaces (complete products such as null-step x statement kind, statement-kind pairs, operator x key x value kind, aggregation kind x field x parameter x input), through Compile+Run on a populated and an empty graph and through a live server's gRPC handlers, every RPC found by reflection included. A clean run shows no crash on these requests, not crash freedom in general.",
+         "Trusted: crash attribution by BEGIN/END progress file (a crash after END, e.g. in a detached job goroutine, would be blamed on the next case and fail the confirmation replay: reported inconclusive, not held). Requests protojson cannot parse are skipped.",
+         "5/C06"),
 }
 
 NOT_YET = "check not built yet in this session (design in DESIGN.md section 5); claimed once the monitor exists and is silent on the unchanged tree"
